@@ -212,11 +212,13 @@ fn main() {
     release_ways!("OpaquePool", OpaquePool::with_layout_of::<Counted>(), PooledMut<dyn Speak>, bad);
     release_ways!("LocalBlindPool", LocalBlindPool::new(), LocalBlindPooledMut<dyn Speak>, bad);
     release_ways!("BlindPool", BlindPool::new(), BlindPooledMut<dyn Speak>, bad);
+    release_ways!("LocalPinnedPool", LocalPinnedPool::<Counted>::new(), LocalPooledMut<dyn Speak>, bad);
+    release_ways!("PinnedPool", PinnedPool::<Counted>::new(), PooledMut<dyn Speak>, bad);
     blind_routing!("LocalBlindPool", LocalBlindPool::new(), bad);
     blind_routing!("BlindPool", BlindPool::new(), bad);
 
     // user code panics inside a managed pool, then the pool is used again
-    for which in 0..4u8 {
+    for which in 0..6u8 {
         let r = guarded(move || {
             // handles that outlive the panic are never dropped: with a poisoned lock their Drop would panic during
             // an unwind and abort the search
@@ -254,6 +256,28 @@ fn main() {
                         **h
                     })
                 }
+                4 | 5 => {
+                    let pool = PinnedPool::<u64>::new();
+                    let keep = std::mem::ManuallyDrop::new(pool.insert(9_u64));
+                    let p2 = pool.clone();
+                    let caught = catch_unwind(AssertUnwindSafe(move || {
+                        let p2 = std::mem::ManuallyDrop::new(p2);
+                        // SAFETY: never completes.
+                        unsafe {
+                            if which == 4 {
+                                std::mem::forget(p2.insert_with(|_s: &mut MaybeUninit<u64>| panic!("init closure panics")));
+                            } else {
+                                p2.with_iter(|_it| -> () { panic!("iteration closure panics") });
+                            }
+                        }
+                    }));
+                    ensure(caught.is_err(), "the panic was swallowed")?;
+                    ensure(**keep == 9, "object disturbed")?;
+                    after(pool, |p| p.len(), |p| {
+                        let h = std::mem::ManuallyDrop::new(p.insert(3_u64));
+                        **h
+                    })
+                }
                 _ => {
                     let pool = BlindPool::new();
                     let keep = std::mem::ManuallyDrop::new(pool.insert(9_u64));
@@ -274,7 +298,7 @@ fn main() {
             }
         });
         if let Err(e) = r {
-            say(&format!("FAILING-INPUT managed pool, user closure #{which} (0 insert_with, 1 insert_with_unchecked, 2 with_iter, 3 BlindPool::insert_with) panics, pool used again: {e}"));
+            say(&format!("FAILING-INPUT managed pool, user closure #{which} (0 insert_with, 1 insert_with_unchecked, 2 with_iter, 3 BlindPool::insert_with, 4 PinnedPool::insert_with, 5 PinnedPool::with_iter) panics, pool used again: {e}"));
             bad += 1;
         }
     }
